@@ -384,6 +384,51 @@ Definition exec_call (k : pkg) (S : solvers) (c : pcall) : res (Q * vec) :=
 Definition run_calls (k : pkg) (S : solvers) (cs : list pcall) : list (res (Q * vec)) :=
   map (exec_call k S) cs.
 
+(* ---------- histories in which the caller re-uses (and updates in place) its composition arrays ---------- *)
+(* The wrappers read the array they are handed at call time, keep no reference to it and do not write to it:
+   a call with array i is the call with the current contents of array i, and only HSet changes an array. *)
+Inductive wh := WTy | WPy | WTx | WPx.
+Definition call_of (w : wh) (z : vec) (a : Q) : pcall :=
+  match w with WTy => CTy z a | WPy => CPy z a | WTx => CTx z a | WPx => CPx z a end.
+Inductive hop :=
+| HSet (i : nat) (v : vec)            (* z_i[:] = v   (in place) *)
+| HCall (w : wh) (i : nat) (a : Q).   (* solve_X(z_i, a), handing over the array object itself *)
+Fixpoint run_hist (k : pkg) (S : solvers) (bufs : list vec) (ops : list hop)
+  : list (res (Q * vec)) * list vec :=
+  match ops with
+  | [] => ([], bufs)
+  | HSet i v :: t => run_hist k S (upd bufs i v) t
+  | HCall w i a :: t =>
+    let r := run_hist k S bufs t in
+    (exec_call k S (call_of w (nth i bufs []) a) :: fst r, snd r)
+  end.
+
+(* ---------- constructor histories with a session default package ---------- *)
+(* BubblePoint(chemicals, thermo=None) / DewPoint(...): thermo = settings.get_default_thermo(thermo) FIRST, then the
+   cache key (chemicals, thermo.Gamma, thermo.Phi, thermo.PCF).  A package is the triple of class ids. *)
+Definition pkgid := (nat * nat * nat)%type.
+Inductive cop :=
+| CDefault (t : pkgid)                             (* settings.set_thermo(...) *)
+| CNew (cs : list nat) (th : option pkgid).        (* cls(chemicals, thermo) / cls(chemicals) *)
+Definition resolve_key (dflt : pkgid) (cs : list nat) (th : option pkgid) : key :=
+  match (match th with Some t => t | None => dflt end) with (g, p, f) => (cs, g, p, f) end.
+Fixpoint run_session {A} (build : key -> res A) (st : cache A * nat) (dflt : pkgid) (ops : list cop)
+  : list (res (nat * A)) :=
+  match ops with
+  | [] => []
+  | CDefault t :: r => run_session build st t r
+  | CNew cs th :: r =>
+    let x := cache_new build st (resolve_key dflt cs th) in
+    fst x :: run_session build (snd x) dflt r
+  end.
+(* the keys a history resolves to, in order *)
+Fixpoint resolved_keys (dflt : pkgid) (ops : list cop) : list key :=
+  match ops with
+  | [] => []
+  | CDefault t :: r => resolved_keys t r
+  | CNew cs th :: r => resolve_key dflt cs th :: resolved_keys dflt r
+  end.
+
 (* ---------- oracle stand-ins used by the correspondence cases (mirrored in props/C08.py) ---------- *)
 (* stand-ins round their results to 2^-64 (the implementation rounds to 53 bits; compared at 1e-9):
    keeps the exact rationals of long evaluation chains small *)
